@@ -325,6 +325,7 @@ func (e *Engine) Run(t *core.Tape, cfg *core.Config, st *core.Stats) (viol *core
 		return b
 	}
 	reduced := cfg.Sub == "short"
+	lazySeq := 0
 	nn := len(names)
 	if reduced {
 		nn = 2
@@ -336,7 +337,7 @@ func (e *Engine) Run(t *core.Tape, cfg *core.Config, st *core.Stats) (viol *core
 	for i := 0; i < nops; i++ {
 		name := names[t.Choose(nn)]
 		fpath := filepath.Join(dir, fileKey(name)+".lua")
-		switch k := t.Weighted([]int{8, 5, 1, 1, 3, 2, 2, 1}); k {
+		switch k := t.Weighted([]int{8, 5, 1, 1, 3, 2, 2, 1, 1}); k {
 		case 0: // require
 			if !reduced && t.Choose(6) == 0 {
 				// require with an error injected at an arbitrary instruction while loaders run
@@ -596,6 +597,38 @@ func (e *Engine) Run(t *core.Tape, cfg *core.Config, st *core.Stats) (viol *core
 				return fail("host-module", "a module registered by the host must be reachable through require and through its global as the same object; got ok:rawequal:type = %s", res)
 			}
 			st.Probe("host_registered_module")
+		case 8: // a host module opened lazily: the PreloadModule loader registers the module when it is first required
+			if reduced {
+				continue
+			}
+			lazySeq++
+			hm := fmt.Sprintf("%s%d", []string{"hostlazy", "hostpkg.lazy"}[t.Choose(2)], lazySeq)
+			stale := t.Choose(3) == 0
+			if stale {
+				// a script module of the same name that returned nothing was loaded (and forgotten by the host) before
+				if _, v := runLua(fmt.Sprintf("package.loaded[%q] = true; return \"\"", hm)); v != nil {
+					return v
+				}
+			}
+			runs := 0
+			L.PreloadModule(hm, func(L *lua.LState) int {
+				runs++
+				L.Push(L.RegisterModule(hm, map[string]lua.LGFunction{"f": func(L *lua.LState) int { L.Push(lua.LNumber(7)); return 1 }}))
+				return 1
+			})
+			if stale {
+				// the stale entry answers require; the host then registers the module itself
+				L.RegisterModule(hm, map[string]lua.LGFunction{"f": func(L *lua.LState) int { L.Push(lua.LNumber(7)); return 1 }})
+			}
+			res, v := runLua(fmt.Sprintf("local ok, r = pcall(require, %q); local ok2, r2 = pcall(require, %q); return tostring(ok) .. \":\" .. type(r) .. \":\" .. tostring(rawequal(r, %s)) .. \":\" .. tostring(rawequal(r, r2)) .. \":\" .. tostring(rawequal(r, package.loaded[%q])) .. \":\" .. tostring(ok and type(r) == \"table\" and r.f and r.f())", hm, hm, hm, hm))
+			if v != nil {
+				return v
+			}
+			log = append(log, fmt.Sprintf("lazy host module %q (stale true entry first: %v): loader ran %d time(s); require -> %s", hm, stale, runs, res))
+			if res != "true:table:true:true:true:7" || (!stale && runs != 1) {
+				return fail("host-module", "a host module registered from inside its PreloadModule loader (or over a stale non-table entry) must be a table reachable through require (twice the same object), package.loaded and its global, its loader running once; got ok:type:global:again:loaded:f() = %s, loader runs %d", res, runs)
+			}
+			st.Probe("host_module_registered_lazily")
 		}
 	}
 	st.Evals++
